@@ -434,6 +434,8 @@ val skipn : nat -> 'a1 list -> 'a1 list
 
 val seq : nat -> nat -> nat list
 
+val repeat : 'a1 -> nat -> 'a1 list
+
 val eqb0 : byte -> byte -> bool
 
 val byte_eq_dec : byte -> byte -> bool
@@ -441,49 +443,6 @@ val byte_eq_dec : byte -> byte -> bool
 val to_N : byte -> n
 
 val of_N : n -> byte option
-
-val w : n
-
-val w64 : n -> n
-
-type fsSuper = { size : n; nLog : n; nBlockBitmap : n; nInodeBitmap : 
-                 n; nInodeBlk : n; maxaddr : n }
-
-val nBlockBitmap : fsSuper -> n
-
-val mkFsSuper : n -> fsSuper
-
-val maxBnum : fsSuper -> n
-
-val bitmapBlockStart : fsSuper -> n
-
-val bitmapInodeStart : fsSuper -> n
-
-val inodeStart : fsSuper -> n
-
-val dataStart : fsSuper -> n
-
-val nInode : fsSuper -> n
-
-val inum2Addr : fsSuper -> n -> n * n
-
-val nBITBLOCK : n
-
-val lOGSIZE : n
-
-val markAlloc_sane : fsSuper -> bool
-
-val mk_bit : fsSuper -> n -> bool
-
-val mk_ibit : n -> bool
-
-val fresh_free_blocks : fsSuper -> n
-
-val fresh_free_inodes : fsSuper -> n
-
-val layout_ok_b : n -> bool
-
-val bitmap_ok_b : n -> n -> bool
 
 type decision = bool
 
@@ -562,9 +521,9 @@ type ('a, 'c) elements = 'c -> 'a list
 
 val elements0 : ('a1, 'a2) elements -> 'a2 -> 'a1 list
 
-type 'c size0 = 'c -> nat
+type 'c size = 'c -> nat
 
-val size1 : 'a1 size0 -> 'a1 -> nat
+val size0 : 'a1 size -> 'a1 -> nat
 
 val true_dec : decision
 
@@ -661,7 +620,7 @@ val list_countable :
 
 val n_countable : n countable
 
-val set_size : ('a1, 'a2) elements -> 'a2 size0
+val set_size : ('a1, 'a2) elements -> 'a2 size
 
 type ('k, 'a, 'm) finMapToList = 'm -> ('k * 'a) list
 
@@ -681,7 +640,7 @@ val map_singleton :
 val list_to_map :
   ('a1, 'a2, 'a3) insert -> 'a3 empty -> ('a1 * 'a2) list -> 'a3
 
-val map_size : ('a1, 'a2, 'a3) finMapToList -> 'a3 size0
+val map_size : ('a1, 'a2, 'a3) finMapToList -> 'a3 size
 
 val map_union_with : 'a1 merge -> ('a2, 'a1) unionWith
 
@@ -793,6 +752,75 @@ val gset_elements :
 val gset_elem_of_dec :
   ('a1, 'a1) relDecision -> 'a1 countable -> ('a1, 'a1 gset) relDecision
 
+val w : n
+
+val bS : n
+
+type sbyte = n
+
+type ino = { size1 : n; blk : sbyte list }
+
+val sum_overflows : n -> n -> bool
+
+val lenN : 'a1 list -> n
+
+val sub0 : sbyte list -> n -> n -> sbyte list
+
+val splice : sbyte list -> n -> sbyte list -> sbyte list
+
+val i_read : ino -> n -> n -> sbyte list * bool
+
+val i_write : ino -> n -> n -> sbyte list -> (n * ino) option
+
+val i_setsize : ino -> n -> ino option * n
+
+type file = sbyte list
+
+val s_read : file -> n -> n -> sbyte list * bool
+
+val s_write : file -> n -> sbyte list -> file option
+
+val s_setsize : file -> n -> file option
+
+val nINODE : n
+
+val valid_inum : n -> bool
+
+type scall =
+| SGetattr of n
+| SSetattr of n * n option
+| SRead of n * n * n
+| SWrite of n * n * n * sbyte list
+
+type sreply =
+| SErr
+| SAttr of bool * n
+| SOk
+| SData of sbyte list * bool
+| SWritten of n
+
+type sstate = (n, file) gmap
+
+val s_file : sstate -> n -> file
+
+val sstep : sstate -> scall -> sstate * sreply
+
+type istate = (n, ino) gmap
+
+val zero_ino : ino
+
+val i_ino : istate -> n -> ino
+
+val istep : istate -> scall -> istate * sreply
+
+val simple_abs : (n -> sbyte list) -> n -> file
+
+val simple_inum_of_handle : sbyte list -> n
+
+val simple_empty_s : sstate
+
+val simple_empty_i : istate
+
 type byte0 = byte
 
 val x00 : byte0
@@ -805,7 +833,7 @@ type bytes = byte0 list
 
 val bytes_eqb : bytes -> bytes -> bool
 
-val bS : n
+val bS0 : n
 
 val zeros : n -> bytes
 
@@ -823,7 +851,7 @@ val takeN : n -> 'a1 list -> 'a1 list
 
 val dropN : n -> 'a1 list -> 'a1 list
 
-val lenN : 'a1 list -> n
+val lenN0 : 'a1 list -> n
 
 val get : nat -> bytes -> n -> n
 
@@ -831,7 +859,7 @@ val get64 : bytes -> n -> n
 
 val get32 : bytes -> n -> n
 
-val splice : bytes -> n -> bytes -> bytes
+val splice0 : bytes -> n -> bytes -> bytes
 
 type name = bytes
 
@@ -848,6 +876,61 @@ val b_slash : byte0
 val dot : name
 
 val dotdot : name
+
+type kstate = (n, bytes) gmap
+
+val kput : kstate -> (n * bytes) list -> kstate
+
+val kget : kstate -> n -> bytes
+
+val k_valid : n -> n -> bool
+
+val kput_ok : n -> (n * bytes) list -> bool
+
+val kvs_empty : kstate
+
+val w0 : n
+
+val w64 : n -> n
+
+type fsSuper = { size2 : n; nLog : n; nBlockBitmap : n; nInodeBitmap : 
+                 n; nInodeBlk : n; maxaddr : n }
+
+val nBlockBitmap : fsSuper -> n
+
+val mkFsSuper : n -> fsSuper
+
+val maxBnum : fsSuper -> n
+
+val bitmapBlockStart : fsSuper -> n
+
+val bitmapInodeStart : fsSuper -> n
+
+val inodeStart : fsSuper -> n
+
+val dataStart : fsSuper -> n
+
+val nInode : fsSuper -> n
+
+val inum2Addr : fsSuper -> n -> n * n
+
+val nBITBLOCK : n
+
+val lOGSIZE : n
+
+val markAlloc_sane : fsSuper -> bool
+
+val mk_bit : fsSuper -> n -> bool
+
+val mk_ibit : n -> bool
+
+val fresh_free_blocks : fsSuper -> n
+
+val fresh_free_inodes : fsSuper -> n
+
+val layout_ok_b : n -> bool
+
+val bitmap_ok_b : n -> n -> bool
 
 type inum = n
 
@@ -1179,6 +1262,14 @@ val need_blocks : call -> n
 val needs_inode : call -> bool
 
 val nospace_plausible : call -> n -> n -> bool
+
+val cached_inode_ok : n -> disk -> n -> bytes -> bool
+
+val dir_slot_list : n -> disk -> n -> ((name * n) * n) list
+
+val triple_eqb : ((name * n) * n) -> ((name * n) * n) -> bool
+
+val name_cache_ok : n -> disk -> n -> ((name * n) * n) list -> bool
 
 val lOGSZ : n
 
